@@ -46,6 +46,7 @@ type Step struct {
 	// flow: leader proposal (auto-justified) for the current round, then P prepares and C commits for the
 	// accepted value from consecutive signers starting at Off
 	P, C, Off int
+	Muts      []Mut `json:"muts,omitempty"` // reprop: mutations of the re-proposal
 }
 
 type Prog struct {
@@ -307,6 +308,55 @@ func (w *world) build(s *MsgSpec) *specqbft.SignedMessage {
 			if len(msg.PrepareJustification) > 0 {
 				msg.PrepareJustification = msg.PrepareJustification[:len(msg.PrepareJustification)-1]
 			}
+		case "pj-extra", "rcj-extra":
+			// one more WELL-FORMED, correctly signed entry than needed in a justification list, off in one respect chosen by
+			// Arg: 0 other root, 1 other round, 2 a copy of the first entry, 3 other height, 4 nothing (a legitimate extra
+			// entry by a signer not listed yet)
+			list := &msg.PrepareJustification
+			if m.Kind == "rcj-extra" || msg.MsgType == specqbft.RoundChangeMsgType {
+				list = &msg.RoundChangeJustification
+			}
+			if len(*list) == 0 || len(*list) >= 13 {
+				break
+			}
+			first := &specqbft.SignedMessage{}
+			if err := first.Decode((*list)[0]); err != nil || len(first.Signers) != 1 {
+				break
+			}
+			listed := map[spectypes.OperatorID]bool{}
+			for _, b := range *list {
+				x := &specqbft.SignedMessage{}
+				if x.Decode(b) == nil && len(x.Signers) == 1 {
+					listed[x.Signers[0]] = true
+				}
+			}
+			extraSigner := spectypes.OperatorID(0)
+			for id := spectypes.OperatorID(1); int(id) <= w.p.N; id++ {
+				if !listed[id] {
+					extraSigner = id
+					break
+				}
+			}
+			if extraSigner == 0 {
+				extraSigner = first.Signers[0]
+			}
+			em := first.Message
+			em.RoundChangeJustification, em.PrepareJustification = nil, nil
+			var eb []byte
+			switch m.Arg % 5 {
+			case 0:
+				em.Root[3] ^= 0x40
+			case 1:
+				em.Round++
+			case 2:
+				eb = (*list)[0]
+			case 3:
+				em.Height++
+			}
+			if eb == nil {
+				eb, _ = w.sign(extraSigner, &em).Encode()
+			}
+			*list = append(*list, eb)
 		case "rcj-garbage": // the SSZ list holds at most 13 entries: a full list gets its last entry replaced
 			if len(msg.RoundChangeJustification) >= 13 {
 				msg.RoundChangeJustification[12] = []byte{1, 2, 3}
@@ -540,6 +590,23 @@ func run(p Prog) *prog.Result {
 				steps = append(steps, Step{Kind: "msg", Msg: &MsgSpec{T: "commit", Value: "acc", Signer: (st.Off+j)%p.N + 1}})
 			}
 			classes["flow"] = true
+		} else if st.Kind == "reprop" {
+			// a prepared-but-undecided round, its timeout, prepared round-changes from a quorum, and the next leader's
+			// re-proposal (justified by those round-changes and the prepares), possibly with one mutation of its lists
+			q := p.N - (p.N-1)/3
+			steps = append(steps, Step{Kind: "msg", Msg: &MsgSpec{T: "proposal", Value: "auto", Just: "auto"}})
+			for j := 0; j < q+st.P%2; j++ {
+				steps = append(steps, Step{Kind: "msg", Msg: &MsgSpec{T: "prepare", Value: "acc", Signer: (st.Off+j)%p.N + 1}})
+			}
+			steps = append(steps, Step{Kind: "timeout"})
+			for j := 0; j < q+st.C%2; j++ {
+				steps = append(steps, Step{Kind: "msg", Msg: &MsgSpec{T: "rc", Value: "acc", Signer: (st.Off+j)%p.N + 1, Prepared: "pool"}})
+			}
+			steps = append(steps, Step{Kind: "msg", Msg: &MsgSpec{T: "proposal", Value: "auto", Just: "auto", Muts: st.Muts}})
+			for j := 0; j < q; j++ {
+				steps = append(steps, Step{Kind: "msg", Msg: &MsgSpec{T: "prepare", Value: "acc", Signer: (st.Off+j)%p.N + 1}})
+			}
+			classes["reproposal-macro"] = true
 		} else {
 			steps = append(steps, st)
 		}
@@ -647,7 +714,7 @@ func (w *world) dump() string {
 
 // ---- generator ----------------------------------------------------------------------------------
 
-var preMuts = []string{"type", "height", "round", "root", "dataround", "identifier", "fulldata-drop", "fulldata-other", "rcj-drop", "rcj-dup", "pj-drop", "rcj-garbage", "pj-garbage"}
+var preMuts = []string{"type", "height", "round", "root", "dataround", "identifier", "fulldata-drop", "fulldata-other", "rcj-drop", "rcj-dup", "pj-drop", "rcj-garbage", "pj-garbage", "pj-extra", "pj-extra", "rcj-extra"}
 var postMuts = []string{"sig-flip", "sig-other", "signers-dup", "signers-zero", "signers-foreign", "signers-two", "signers-empty"}
 
 func genMut(t *rapid.T) Mut {
@@ -669,7 +736,7 @@ func genMut(t *rapid.T) Mut {
 
 func genStep(n int) func(t *rapid.T) Step {
 	return func(t *rapid.T) Step {
-		kind := rapid.SampledFrom([]string{"msg", "msg", "msg", "msg", "msg", "msg", "msg", "msg", "msg", "msg", "msg", "msg", "flow", "flow", "timeout", "timeout", "timeouts"}).Draw(t, "kind")
+		kind := rapid.SampledFrom([]string{"msg", "msg", "msg", "msg", "msg", "msg", "msg", "msg", "msg", "msg", "msg", "msg", "flow", "flow", "reprop", "timeout", "timeout", "timeouts"}).Draw(t, "kind")
 		if kind == "timeouts" {
 			return Step{Kind: "timeouts", Burst: rapid.IntRange(3, 16).Draw(t, "ntimeouts")}
 		}
@@ -678,6 +745,14 @@ func genStep(n int) func(t *rapid.T) Step {
 		}
 		if kind == "flow" {
 			return Step{Kind: "flow", P: rapid.IntRange(0, n).Draw(t, "p"), C: rapid.IntRange(0, n).Draw(t, "c"), Off: rapid.IntRange(0, n-1).Draw(t, "off")}
+		}
+		if kind == "reprop" {
+			st := Step{Kind: "reprop", P: rapid.IntRange(0, 1).Draw(t, "rp_p"), C: rapid.IntRange(0, 1).Draw(t, "rp_c"), Off: rapid.IntRange(0, n-1).Draw(t, "rp_off")}
+			if rapid.IntRange(0, 3).Draw(t, "rp_mut") > 0 {
+				k := rapid.SampledFrom([]string{"pj-extra", "pj-extra", "rcj-extra", "pj-drop", "rcj-drop", "rcj-dup", "pj-garbage", "fulldata-other", "root"}).Draw(t, "rp_mk")
+				st.Muts = []Mut{{Kind: k, Arg: rapid.IntRange(0, 40).Draw(t, "rp_arg")}}
+			}
+			return st
 		}
 		s := &MsgSpec{}
 		s.T = rapid.SampledFrom([]string{"proposal", "prepare", "prepare", "prepare", "commit", "commit", "commit", "rc", "rc", "rc"}).Draw(t, "t")
